@@ -271,6 +271,31 @@ def run(chk, tier):
                 chk.bad("R07.1", name + "|binds the element", "%s must bind the loop variable to the current element, binds %s" % (name, evs), b.file)
     chk.floor("R07.1", "loop functions", len(LOOPS), 8)
     chk.analysed = {"loop_functions": sorted(LOOPS), "entry_functions": sorted(ENTRY)}
+    # ---------------- R07.5 the macros ARE their defining folds on short lists (exhaustive symbolic tables)
+    chk.rule("R07.5", "for lists of 0..3 elements and EVERY assignment of outcomes (truthy / falsy / failing / value) to the body evaluations, the macro visits the elements in order, "
+                      "evaluates exactly the bodies the defining fold with early exit evaluates, binds the loop variable (and for reduce the previous result) as the fold does, stops "
+                      "where it stops and returns what it returns - by symbolic execution of the implementation against the fold generated from the property")
+    import macrotab
+    nrows = 0
+    for mac in macrotab.TARGETS:
+        for n_ in range(0, 4 if tier != "thorough" else 5):
+            key = "%s|%d element%s" % (mac, n_, "" if n_ == 1 else "s")
+            try:
+                got, junk = macrotab.extract(F, mac, n_)
+            except Exception as e_:             # symbolic execution did not finish / unknown construct: fail closed
+                chk.bad("R07.5", key, "the macro implementation could not be executed symbolically: %s: %s" % (type(e_).__name__, str(e_)[:120]), "rscel/src/context/default_macros")
+                continue
+            want = macrotab.model(mac, n_)
+            nrows += len(got)
+            if got == want:
+                chk.ok("R07.5", key, {"behaviours": len(got)})
+            else:
+                extra = sorted(got - want, key=str)[:2]
+                missing = sorted(want - got, key=str)[:2]
+                chk.bad("R07.5", key, "%s over a list of %d: the implementation and the defining fold disagree; implementation only: %s; fold only: %s   "
+                                      "(p = predicate / body, f = transform; outcomes T truthy, F falsy, E fails, V value)"
+                        % (mac, n_, [macrotab.describe(r_) for r_ in extra], [macrotab.describe(r_) for r_ in missing]), "rscel/src/context/default_macros")
+    chk.floor("R07.5", "behaviours compared", nrows, 120)
     return chk.finish(
         "Skeleton, polarity, private-copy and order clauses of the six comprehension macros extracted from MIR: expression trees of call operands, dominance "
         "between bind_param / new_child / run_raw, reachability of the loop head from the truthy / falsy / failure edges, constants returned on early exits. "
